@@ -18,9 +18,16 @@ def plan(tier, seed):
             # a regex that runs across layout characters
             dict(space="k3", win=(seed, 2), lexmaps=("M5",), wss=(" ",),
                  alpha="ab ", nmax=4),
-            # seed-rotated, fully enumerated window of the thorough domain
+            # seed-rotated, fully enumerated windows of the thorough domain
             dict(space="k4only", win=(seed, 40), lexmaps=("M0", "M3"),
                  wss=(" ",), alpha="ab ", nmax=4),
+            # longer right-hand sides / a third nonterminal: the smallest
+            # grammars on which GLR loses its *only* stack live here
+            dict(space="r3", win=(seed, 40), lexmaps=("M0",), wss=("",),
+                 alpha="ab", nmax=4),
+            dict(space="n3", win=(seed, 80), lexmaps=("M0",), wss=("",),
+                 alpha="ab", nmax=4),
+            dict(space="n3a", lexmaps=("M0",), wss=("",), alpha="a", nmax=4),
         ]
     return [
         dict(space="k3", lexmaps=ALL, wss=(" ", ""), alpha="ab ", nmax=5),
@@ -30,11 +37,17 @@ def plan(tier, seed):
              alpha="ab ", nmax=4),
         dict(space="r3", lexmaps=("M0", "M3"), wss=("",), alpha="ab", nmax=4),
         dict(space="n3", lexmaps=("M0",), wss=("",), alpha="ab", nmax=4),
+        dict(space="n3a", lexmaps=("M0",), wss=("",), alpha="a", nmax=4),
     ]
 
 
 def units(tier, seed):
-    return glrsweep.make_units(plan(tier, seed))
+    import os
+    rows = plan(tier, seed)
+    only = os.environ.get("PGMC_ONLY_SPACES")      # exploratory use only
+    if only:
+        rows = [r for r in rows if r["space"] in only.split(",")]
+    return glrsweep.make_units(rows)
 
 
 def check_case(ctx, an, s, p, o):
